@@ -188,6 +188,8 @@ def run_c04(tier):
     cases = tlc_cases(res.out)
     reps = 1 if tier == 'quick' else 4
     jobs = [{'kind': 'aggregation', 'seed': vlib.jseed(seed, i, r), 'case': cs} for r in range(reps) for i, cs in enumerate(cases)]
+    # long lists (127 .. 513 entries): the laws do not depend on the length of the list
+    jobs += [{'kind': 'aggregation-large', 'seed': vlib.jseed(seed, 7000 + k), 'case': {}} for k in range(2 if tier == 'quick' else 24)]
     execute(ck, 'C04', jobs)
     for cs in cases:
         ck.case(vlib.digest([cs['keys'], cs['cut']]), len(cs['keys']) > 1)
